@@ -429,9 +429,10 @@ class C06(object):
                 t2 = float(desc["tol"]) ** 2
                 # a degenerate fit (all contributing hkl in one plane) returns a matrix with entries of 1e16: U.g then cancels
                 # catastrophically and its fractional part depends on the order of summation - nothing to compare
+                # (and beyond 2^52 floor(h + 0.5) and round(h) differ by one): indices of a million and more are not indices
                 hd_ = np.dot(Uo, gv.T)
                 ssd_ = ((hd_ - np.round(hd_)) ** 2).sum(axis=0)
-                if np.abs(sso - t2).min() > 1e-9 and np.abs(ssd_ - sso).max() < 1e-9:
+                if np.abs(sso - t2).min() > 1e-9 and np.abs(ssd_ - sso).max() < 1e-9 and np.abs(hd_).max() < 1e6:
                     selo = (sso < t2) & (np.asarray(ix.ra) > -1)
                     if int(ix.scorelastrefined) != int(selo.sum()) or (selo.any() and
                             abs(float(ix.fitlastrefined) - math.sqrt(float(sso[selo].mean()))) > 1e-9 * max(1.0, float(ix.fitlastrefined))):
